@@ -67,10 +67,12 @@ def compare_p2p(ctx, rows, name, pre=None):
         bins[j].append(i)
         load[j] += weight(rows[i]) + 200
     bins = [sorted(b) for b in bins if b]
-    texts = [HDR + "Definition cases : list p2hist := %s.\nDefinition M := Eval vm_compute in map check_p2hist cases.\nPrint M.\n"
+    # check_p2hist_k: the recorded keccak pairs that are shipped are first validated against the Gallina Keccak-256 (lib/Keccak.v), -2 if not
+    texts = [HDR + "Definition cases : list p2hist := %s.\nDefinition M := Eval vm_compute in map check_p2hist_k cases.\nPrint M.\n"
              % core.glist(ghist(rows[i], pre) for i in b) for b in bins]
     res = core.coq_eval_many(ctx, name, texts, timeout=1500)
     bad, cut = [], 0
+    nkbad = 0
     for b, (ok, o) in zip(bins, res):
         m = core.parse_print(o, "M")
         if not ok or m is None:
@@ -85,6 +87,12 @@ def compare_p2p(ctx, rows, name, pre=None):
                 bad.append((i, v))
             elif v == -3:
                 cut += 1
+            elif v == -2:
+                nkbad += 1
+                if nkbad <= 2:
+                    ctx.problem("correspondence", "a recorded Keccak256 result is not the value of the Gallina keccak256 (lib/Keccak.v)",
+                                "p2p history %s" % rows[i]["id"], concrete=False, replay={"history": rows[i]["id"], "keccak_table": rows[i]["keccak"][:50]})
+    ctx.cov["p2p_keccak_table_histories_rejected"] = nkbad
     return sorted(bad), cut
 
 
